@@ -1074,6 +1074,10 @@ pub fn format_function_call(
     let mut formatted_suffixes = Vec::with_capacity(num_suffixes);
     let mut suffixes = function_call.suffixes().peekable();
     let mut previous_suffix_was_index = true; // The index is a name, so we treat that as an index so `A()` doesn't hang
+    // If what comes before the suffix ends with a single line comment, the suffix can not stay on the same line
+    let mut previous_ends_with_comment = function_call
+        .prefix()
+        .has_trailing_comments(CommentSearch::Single);
     let mut idx = 0; // Is the first suffix
 
     while let Some(suffix) = suffixes.next() {
@@ -1115,13 +1119,15 @@ pub fn format_function_call(
 
         // Hang the call, but don't hang if the previous suffix was an index and this is an anonymous call, i.e. `.foo()`
         if will_hang
-            && !(previous_suffix_was_index
-                && matches!(suffix, Suffix::Call(Call::AnonymousCall(_))))
+            && (previous_ends_with_comment
+                || !(previous_suffix_was_index
+                    && matches!(suffix, Suffix::Call(Call::AnonymousCall(_)))))
         {
             suffix = trivia_util::prepend_newline_indent(ctx, &suffix, current_shape);
         }
 
         previous_suffix_was_index = matches!(suffix, Suffix::Index(_));
+        previous_ends_with_comment = suffix.has_trailing_comments(CommentSearch::Single);
         shape = shape.take_last_line(&suffix);
         formatted_suffixes.push(suffix);
         idx += 1;
